@@ -97,3 +97,40 @@ package remux
 //@   ensures [C01.lazy.meta.len] isnil(old(lcd.chunksWithSdf)) && lcd.msg.Header.MsgTypeId == 18 ==> callarg(rtmp.Message2Chunks, 1).MsgLen == uint32(len(callarg(rtmp.Message2Chunks, 0))) && callarg(rtmp.Message2Chunks, 1).Csid == 5 && callarg(rtmp.Message2Chunks, 1).TimestampAbs == lcd.msg.Header.TimestampAbs
 //@   ensures [C01.lazy.av.body] isnil(old(lcd.chunksWithSdf)) && lcd.msg.Header.MsgTypeId != 18 ==> callarg(rtmp.Message2Chunks, 0) == lcd.msg.Payload && callarg(rtmp.Message2Chunks, 1).MsgLen == lcd.msg.Header.MsgLen && callarg(rtmp.Message2Chunks, 1).TimestampAbs == lcd.msg.Header.TimestampAbs
 //@ end
+
+// C06: timestamps and payload hand-over of the RTMP -> MPEG-TS remuxer. A video frame handed to the TS packer has
+// DTS = timestamp*90, PTS = DTS + 90*cts, the video pid/stream id and the Annex-B buffer just built; the audio PES
+// carries the 90 kHz time of the first cached frame; an AAC frame is cached as ADTS header + the frame's bytes.
+//@ func (*Rtmp2MpegtsRemuxer).feedVideo
+//@   props C06 C05
+//@   safety C05
+//@   assert after "frame.Sid = mpegts.StreamIdVideo" [C06.ts.video.pts] slow: frame.Dts == uint64(msg.Header.TimestampAbs) * 90 && frame.Pts == uint64(msg.Header.TimestampAbs) * 90 + 90 * uint64(frame.Cts)
+//@   assert after "frame.Sid = mpegts.StreamIdVideo" [C06.ts.video.raw] frame.Pid == 0x100 && frame.Sid == 0xe0 && frame.Raw == s.videoOut && frame.Cc == s.videoCc
+//@ end
+//@ func (*Rtmp2MpegtsRemuxer).FlushAudio
+//@   props C06 C05
+//@   safety C05
+//@   assert after "frame.Sid = mpegts.StreamIdAudio" [C06.ts.audio] frame.Dts == s.audioCacheFirstFramePts && frame.Pts == s.audioCacheFirstFramePts && frame.Cts == 0 && frame.Pid == 0x101 && frame.Sid == 0xc0 && frame.Raw == s.audioCacheFrames && !frame.Key
+//@ end
+//@ func (*Rtmp2MpegtsRemuxer).feedAudio
+//@   props C06 C05
+//@   safety C05
+//@   assert after "adtsHeader := ..." [C06.ts.audio.first] slow: len(s.audioCacheFrames) != 0 || s.audioCacheFirstFramePts == uint64(msg.Header.TimestampAbs) * 90
+//@   assert after "s.audioCacheFrames = append(s.audioCacheFrames, msg.Payload[2:]...)" [C06.ts.audio.bytes] int: disjoint(msg.Payload, s.audioCacheFrames) ==> len(s.audioCacheFrames) >= len(msg.Payload) - 2 && forall i in [0, len(msg.Payload) - 2) :: s.audioCacheFrames[len(s.audioCacheFrames) - (len(msg.Payload) - 2) + i] == msg.Payload[2 + i]
+//@ end
+
+// C07: AvPacket -> RTMP message. The message handed to the observer carries the payload slice built for it, its
+// length, the frame's timestamp (low 32 bits) and the type/csid of its kind; raw AAC / G.711 / Opus frames are
+// copied byte for byte behind the one- or two-byte RTMP audio tag header.
+//@ func (*AvPacket2RtmpRemuxer).emitRtmpAvMsg
+//@   props C07
+//@   assert after "msg.Payload = payload" [C07.emit.hdr] msg.Header.MsgLen == uint32(len(payload)) && msg.Header.TimestampAbs == uint32(timestamp) && msg.Payload == payload && msg.Header.MsgStreamId == 1 && (isAudio ==> msg.Header.MsgTypeId == 8 && msg.Header.Csid == 6) && (!isAudio ==> msg.Header.MsgTypeId == 9 && msg.Header.Csid == 7)
+//@ end
+//@ func (*AvPacket2RtmpRemuxer).FeedAvPacket
+//@   props C07
+//@   assert after "copy(payload[2:], pkt.Payload)" [C07.feed.rawaac] int: len(payload) == len(pkt.Payload) + 2 && payload[0] == 0xAF && payload[1] == 1 && forall i in [0, len(pkt.Payload)) :: payload[2 + i] == pkt.Payload[i]
+//@   assert after "copy(payload[1:], pkt.Payload)"@1 [C07.feed.g711a] int: len(payload) == len(pkt.Payload) + 1 && payload[0] == 0x72 && forall i in [0, len(pkt.Payload)) :: payload[1 + i] == pkt.Payload[i]
+//@   assert after "copy(payload[1:], pkt.Payload)"@2 [C07.feed.g711u] int: len(payload) == len(pkt.Payload) + 1 && payload[0] == 0x82 && forall i in [0, len(pkt.Payload)) :: payload[1 + i] == pkt.Payload[i]
+//@   assert after "copy(payload[1:], pkt.Payload)"@3 [C07.feed.opus] int: len(payload) == len(pkt.Payload) + 1 && payload[0] == 0xdf && forall i in [0, len(pkt.Payload)) :: payload[1 + i] == pkt.Payload[i]
+//@   assert after "copy(payload[2:], pkt.Payload[7:])" [C07.feed.adts] int: len(payload) == len(pkt.Payload) - 5 && payload[0] == 0xAF && payload[1] == 1 && forall i in [0, len(pkt.Payload) - 7) :: payload[2 + i] == pkt.Payload[7 + i]
+//@ end
